@@ -170,6 +170,8 @@ def _fuzzing(prog, rep):
 
 
 def run(prog, rep):
+    from . import optconv
+    optconv.check(prog, rep, 'C05')
     lemmas.load_all()
     guarded(rep, "C05.R1", WSL, lambda: _wsl(prog, rep))
     guarded(rep, "C05.R1", FILL, lambda: _fill(prog, rep))
